@@ -258,6 +258,14 @@ func (b *BlockList) readBlocklists() error {
 			return nil
 		}
 		if !f.IsDir() {
+			// An interrupted persist leaves its "local.tmp.*" scratch file
+			// behind. It is partial by construction and was never renamed
+			// into place: it is not a list, and loading it would resurrect
+			// entries the complete local file no longer has.
+			if strings.HasPrefix(filepath.Base(path), "local.tmp.") {
+				_ = os.Remove(path) //nolint:gosec // G122 - trusted local temp files
+				return nil
+			}
 			file, err := os.Open(path) //nolint:gosec // G304 - path from walk, not user input
 			if err != nil {
 				return fmt.Errorf("error opening file: %w", err)
